@@ -221,7 +221,7 @@ static CoinMap NodeUtxo(ck::Node& n)
     CoinMap m;
     for (auto& [op, c] : n.UtxoByCursor()) {
         OutKey k;
-        std::copy(op.hash.begin(), op.hash.end(), k.first.begin());
+        { const uint256& u = op.hash.ToUint256(); std::copy(u.begin(), u.end(), k.first.begin()); }
         k.second = op.n;
         DCoin d;
         d.height = c.nHeight; d.cb = c.fCoinBase; d.amount = (uint64_t)c.out.nValue; d.script = Bytes(c.out.scriptPubKey.begin(), c.out.scriptPubKey.end());
@@ -385,9 +385,14 @@ static void StructuredCases(const World& w, std::vector<Case>& out, bool all_coi
     }
 }
 
+static int Run();
 int main(int argc, char** argv)
 {
     vx::init(argc, argv, "C20", "fault_enumeration");
+    return fp::guarded(Run, "C20 main process (node setup / read-level enumeration)");
+}
+static int Run()
+{
     setenv("RANDOM_CTX_SEED", "c20c20c20c20", 1);
     auto& E = vx::ev();
     const bool big = vx::thorough();
@@ -455,7 +460,7 @@ int main(int argc, char** argv)
     w.orig = Decode(s110, w.netmagic);
     if (!w.orig.ok || w.orig.first != w.orig.last) { printf("HARNESS-ERROR C20: reference decoder rejects the genuine snapshot: %s\n", w.orig.err.c_str()); return 2; }
     // cross-checks of the reference side against the commitment in chainparams and against its own encoder
-    if (HashSerializedRef(w.orig.first) != au->hash_serialized.data) {
+    if (AssumeutxoHash{HashSerializedRef(w.orig.first)} != au->hash_serialized) {
         vx::violation("snapshot-hash-vs-commitment", "the coin set written by the dump code at height 110 does not hash (independent SHA256d over outpoint|code|txout in database order) to the assumeutxo commitment in chainparams", "genuine snapshot");
     }
     if (Encode(w.orig.s) != s110) { printf("HARNESS-ERROR C20: reference encoder does not reproduce the genuine snapshot bytes\n"); return 2; }
@@ -476,6 +481,7 @@ int main(int argc, char** argv)
     auto in_fork = [&](fp::Out& out, const std::string& what, const std::function<void()>& fn) {
         out.flush();
         fflush(stdout);
+        if (ck::ThreadCount() != 1) { out.count("harness_not_single_threaded"); return; } // fork would be unsound
         pid_t g = fork();
         if (g < 0) throw std::runtime_error("C20: fork failed");
         if (g == 0) {
@@ -708,6 +714,7 @@ int main(int argc, char** argv)
     g &= need(counts["genuine_accepted"] == 1 && counts["background_validated"] == 1, "genuine snapshot + background validation did not succeed");
     g &= need(counts["background_mismatch_detected"] == docs.size(), "not every doctored snapshot was caught by background validation");
     g &= need(counts["scenario_rejected"] >= 8, "scenarios missing");
+    if (counts["harness_not_single_threaded"]) { printf("HARNESS-ERROR C20: a process that had to fork was not single-threaded\n"); g = false; }
     int rc = vx::finish();
     if (!g && rc == 0) return 2;
     return rc;
